@@ -6,6 +6,7 @@ import (
 	"fmt"
 	"net/http/httptest"
 	"net/url"
+	"sort"
 	"strings"
 	"time"
 	"unicode/utf8"
@@ -284,7 +285,7 @@ type c20Flow struct {
 	JWT  bool   `json:"jwt_access"`
 }
 
-var c20Flows = []string{"code-pkce-post", "oidc-code", "hybrid", "implicit", "refresh", "password", "client_credentials", "jwt-bearer", "client-assertion", "device", "device-oidc", "par-post", "par-assertion", "revocation", "introspection", "code-replay"}
+var c20Flows = []string{"code-pkce-post", "oidc-code", "hybrid", "implicit", "refresh", "password", "client_credentials", "jwt-bearer", "client-assertion", "device", "device-oidc", "par-post", "par-assertion", "revocation", "introspection", "code-replay", "cross-presentation"}
 
 func c20RunStore(c c20Flow, res *WRes) {
 	w := NewWorld(Profile{JWTAccess: c.JWT})
@@ -446,6 +447,56 @@ func c20RunStore(c c20Flow, res *WRes) {
 			scan("authorize from request_uri")
 		} else {
 			res.note("sanity:par-refused:" + c.Flow + ":" + po.Class())
+		}
+	case "cross-presentation":
+		// every kind of credential presented in every slot that takes a credential: whichever lookup is tried,
+		// the storage key must be a signature, never the complete (still usable) credential
+		o := authz("code", "offline a", nil)
+		t := token("password", url.Values{"grant_type": {"password"}, "username": {"peter"}, "password": {"pw-peter"}, "scope": {"offline a"}}, postA)
+		do := w.DeviceAuth(url.Values{"scope": {"offline a"}}, postA)
+		add(do.Str("device_code"), "complete device code")
+		add(do.Str("user_code"), "complete user code")
+		po := w.PAR(url.Values{"redirect_uri": {"https://A.example/cb"}, "state": {"state-12345678"}, "response_type": {"code"}, "scope": {"offline a"}}, postA)
+		scan("setup")
+		creds := map[string]string{"code": o.Param("code"), "access_token": t.Str("access_token"), "refresh_token": t.Str("refresh_token"), "device_code": do.Str("device_code"), "user_code": do.Str("user_code"), "request_uri": po.Str("request_uri")}
+		var kinds []string
+		for k, v := range creds {
+			if v != "" {
+				kinds = append(kinds, k)
+			}
+		}
+		sort.Strings(kinds)
+		for _, k := range kinds {
+			v := creds[k]
+			for _, hint := range []string{"", "access_token", "refresh_token", "garbage"} {
+				w.Introspect(v, hint, "", w.AuthFor("I"), "")
+				scan("introspect " + k + " hint=" + hint)
+			}
+			w.Introspect(t.Str("access_token"), "", "", Auth{Mode: "omit"}, v)
+			scan("introspection bearer = " + k)
+			if k != "code" {
+				token(k+" as code", url.Values{"grant_type": {"authorization_code"}, "code": {v}, "redirect_uri": {"https://A.example/cb"}}, postA)
+			}
+			if k != "refresh_token" {
+				token(k+" as refresh token", url.Values{"grant_type": {"refresh_token"}, "refresh_token": {v}}, postA)
+			}
+			if k != "device_code" {
+				token(k+" as device code", url.Values{"grant_type": {"urn:ietf:params:oauth:grant-type:device_code"}, "device_code": {v}}, postA)
+			}
+			// (not presented as request_uri: a request_uri is looked up by its full value by contract, so whatever a
+			// client puts into that slot reaches GetPARSession as the key)
+		}
+		// revocation last (it invalidates): each live token under every hint by a foreign client (refused, nothing dies), then by the owner
+		for _, k := range []string{"access_token", "refresh_token", "code", "device_code"} {
+			for _, hint := range []string{"", "access_token", "refresh_token", "garbage"} {
+				w.Revoke(creds[k], hint, Auth{Mode: "post", ID: "B", Secret: "secret-B"})
+				scan("foreign revoke " + k + " hint=" + hint)
+			}
+		}
+		for _, hint := range []string{"refresh_token", "access_token"} {
+			w.Revoke(creds["access_token"], hint, postA)
+			scan("revoke access token hint=" + hint)
+			kill(creds["access_token"])
 		}
 	case "revocation", "introspection":
 		t := token("password", url.Values{"grant_type": {"password"}, "username": {"peter"}, "password": {"pw-peter"}, "scope": {"offline a"}}, postA)
